@@ -16,7 +16,10 @@ RULE = ("a recording probe helper (dumps params / hash / block metadata as JSON,
 DEFINITE_FLOOR = 0.9
 ASSUMPTIONS = ["single-quoted strings nested inside array/object literals are excluded from the random stream (known finding F15) and run as a listed witness",
                "a tag whose NAME is a subexpression is excluded from the random stream (known finding F12) and runs as a listed witness"]
-DATA = {"a": 1, "s": "str", "o": {"k": "v", "n": [1, 2, 3]}, "arr": ["x", "y"], "t": True, "nul": None, "neg": -7, "big": 2 ** 63}
+DATA = {"a": 1, "s": "str", "o": {"k": "v", "n": [1, 2, 3]}, "arr": ["x", "y"], "t": True, "nul": None, "neg": -7, "big": 2 ** 63,
+        # field names that BEGIN like a literal and go on with a character of the grammar's `symbol_char` class that is no ASCII letter,
+        # digit or underscore: they are paths (a literal ends where no symbol character follows), one argument each
+        "null-safe": "ns", "true-color": "tc", "false$": "f$", "1-2": "12", "nullé": "né", "true:x": "tx", "0$": "z$", "-1-": "m1", "nullable": "nb", "true_": "tu", "12ab": "ab"}
 STR_ALPHA = list("ab \"'\\{}/") + ["\n", "\t", "é", "→", "😀", "\u0001", "\r", "{{", "}}"]
 
 
@@ -138,7 +141,9 @@ def gen_arg(rng, depth):
         return s, {"v": to_json(v), "r": None, "m": False}
     if k == "path":
         p, v = rng.pick([("a", 1), ("s", "str"), ("o.k", "v"), ("o/n/[1]", 2), ("arr.[0]", "x"), ("t", True), ("nul", None),
-                         ("neg", -7), ("big", 2 ** 63), ("this.o.n", [1, 2, 3]), ("@root.s", "str"), ("o", {"k": "v", "n": [1, 2, 3]})])
+                         ("neg", -7), ("big", 2 ** 63), ("this.o.n", [1, 2, 3]), ("@root.s", "str"), ("o", {"k": "v", "n": [1, 2, 3]}),
+                         ("null-safe", "ns"), ("true-color", "tc"), ("false$", "f$"), ("1-2", "12"), ("nullé", "né"), ("true:x", "tx"), ("0$", "z$"), ("-1-", "m1"),
+                         ("nullable", "nb"), ("true_", "tu"), ("12ab", "ab"), ("this.null-safe", "ns"), ("@root.true-color", "tc")])
         return p, {"v": v, "r": p, "m": False}
     if k == "missing":
         p = rng.pick(["nope", "o.zz", "arr.[9]"])
